@@ -113,6 +113,19 @@ class C18(Property):
                              [[n, list(o)] for n, o in anyset.items() if o]
             groups.append(g)
         events = [e for g in groups for e in g]
+        # events of different groups may collide as well: same treatment per logical event
+        first = {}
+        for e in events:
+            key = json.dumps([e['type'], e['source'], sorted((p['name'], sorted(c04.objects(e, p['name'])))
+                                                              for p in et['props'] if p['merge'] == 'match')])
+            f = first.setdefault(key, e)
+            if f is not e:
+                anyset = {p['name']: c04.objects(f, p['name']) for p in et['props'] if p['merge'] in ('any', 'set')}
+                e.pop('atts', None)
+                if f.get('atts'):
+                    e['atts'] = json.loads(json.dumps(f['atts']))
+                e['props'] = [pv for pv in e['props'] if pv[0] not in anyset] + \
+                             [[n, list(o)] for n, o in anyset.items() if o]
         rng.shuffle(events)
         return events
 
